@@ -18,7 +18,7 @@ func init() { register("C08", "other", c08) }
 
 func c08(c *Ctx) {
 	c.R.RuleText = "option-set copy completeness by value flow, validate-before-store on every inlined path from the two field entry points to a primitive store, required-field path table, exhaustive decision tables of the range test / bracket parsers / optional-dependency resolution"
-	c.R.Explain = "Structural necessary conditions of C08: the options value produced by toOptionsWithContext agrees with the declared options in every field except the resolved Optional flag (so range/options/default/string/inherit survive optional=dep re-resolution); on every path from processNamedFieldWithValue / processFieldWithEnvValue to a primitive store of a supplied value a range validator applied to the field's own options and an options-membership check on those options have succeeded first, on the value that is stored; an absent scalar field that is neither defaulted nor optional yields the 'is not set' error and a nil supplied value is accepted only for optional fields; validateNumberRange equals the inside-the-interval predicate for all 36 orderings x bracket kinds; bracket parsers and the optional-dependency resolution equal their tables. NOT decided: no-panic (reflection), value fidelity, completeness (valid input accepted) beyond these tables."
+	c.R.Explain = "Structural necessary conditions of C08: the options value produced by toOptionsWithContext agrees with the declared options in every field except the resolved Optional flag (so range/options/default/string/inherit survive optional=dep re-resolution); on every path from processNamedFieldWithValue / processFieldWithEnvValue to a primitive store of a supplied value a range validator applied to the field's own options and an options-membership check on those options have succeeded first, on the value that is stored; an absent scalar field that is neither defaulted nor optional yields the 'is not set' error and a nil supplied value is accepted only for optional fields; validateNumberRange equals the inside-the-interval predicate for all 36 orderings x bracket kinds and for a NaN; bracket parsers and the optional-dependency resolution equal their tables. NOT decided: no-panic (reflection), value fidelity, completeness (valid input accepted) beyond these tables."
 	c.R.Assume = append(c.R.Assume, "reflect.Value setters store their argument", "slice/map elements carry no per-element options (they are validated with nil options by design)")
 	pkg := "core/mapping"
 	c08r1(c, pkg)
@@ -626,11 +626,38 @@ func c08r4(c *Ctx, pkg string) {
 							if isFld(s, "rightInclude") {
 								return ri, true
 							}
+							if s.Kind == px.KCall && s.Call != nil && shortName(s.Call) == "math.IsNaN" && len(s.Call.Args) == 1 && isParam(s.Call.Args[0], fvP) {
+								return false, true
+							}
+							if s.Kind == px.KBinOp && (s.Op == token.NEQ || s.Op == token.EQL) && isParam(s.X.Strip(true), fvP) && isParam(s.Y.Strip(true), fvP) {
+								return s.Op == token.EQL, true // fv != fv is the NaN test
+							}
 							return false, false
 						})
 						rows = append(rows, tableRow{name: fmt.Sprintf("leftIncl=%v rightIncl=%v fv%sleft fv%sright", li, ri, names[ol], names[or]), atom: atom, expect: exp})
 					}
 				}
+				// the value is not a number (NaN — reachable through `,string` fields and form/path/header values: "NaN"
+				// parses as a float): it is unordered against both bounds, lies in no interval, and must be rejected
+				li, ri := li, ri
+				nanAtom := ordAtom(func(x, y *px.Sym) (int, bool) {
+					if isParam(x, fvP) && (isFld(y, "left") || isFld(y, "right") || isParam(y, fvP)) {
+						return ordUnordered, true
+					}
+					return 0, false
+				}, func(s *px.Sym) (bool, bool) {
+					if isFld(s, "leftInclude") {
+						return li, true
+					}
+					if isFld(s, "rightInclude") {
+						return ri, true
+					}
+					if s.Kind == px.KCall && s.Call != nil && shortName(s.Call) == "math.IsNaN" && len(s.Call.Args) == 1 && isParam(s.Call.Args[0], fvP) {
+						return true, true
+					}
+					return false, false
+				})
+				rows = append(rows, tableRow{name: fmt.Sprintf("leftIncl=%v rightIncl=%v fv is NaN", li, ri), atom: nanAtom, expect: "error"})
 			}
 		}
 		c.checkTable(rule, pkg+".validateNumberRange", "for all bracket kinds and all orderings of the value against both bounds: nil iff the value lies inside the declared interval (closed end includes the bound, open end excludes it)", posOf(c, f), ps, rows, func(p *px.Path, atom atomFn) string {
